@@ -15,10 +15,9 @@ Inductive ophase :=
 | PRunning    (* worker task started; an event is being indexed *)
 | PWaiting    (* indexed, own toggle dropped, at operator_indexed.wait_for(True) *)
 | PPassed     (* process_resource_causes reached: handlers, daemons, timers may start *)
-| PFailed     (* index_resource raised while the object's first event was processed (e.g. a when= callback of an
-                 @kopf.index handler): the error throttler swallowed it, the own toggle was NOT dropped, the worker idles *)
-| PLeaked.    (* ... and that worker exited on its idle timeout: nobody holds the toggle any more; a later event of the
-                 same object starts a new stream with a new toggle (numbered as a new object by the harness) *)
+| PFailed.    (* index_resource raised for the event being processed (e.g. a when= callback of an @kopf.index handler):
+                 the own toggle was dropped in the `finally` (fix c050920), the exception went to the error throttler,
+                 process_resource_causes is NOT reached in this cycle; the worker lives on and idles *)
 
 Record orec := mkO {
   ph : ophase;
@@ -73,7 +72,7 @@ Inductive label :=
 | Indexed (o : nat)                 (* processor: index_resource done, drop_toggle(own) *)
 | Pass (o : nat)                    (* processor: wait_for(True) returned -> process_resource_causes *)
 | Retire (o : nat)                  (* worker: idle, exits; the stream is deleted *)
-| IndexRaised (o : nat).            (* processor: index_resource raised during the worker's first event; toggle kept *)
+| IndexRaised (o : nat).            (* processor: index_resource raised; `finally`: drop_toggle(own); the exception leaves *)
 
 Definition remove_nat (x : nat) (l : list nat) : list nat := filter (fun y => negb (Nat.eqb y x)) l.
 Definition mem_nat (x : nat) (l : list nat) : bool := existsb (Nat.eqb x) l.
@@ -81,7 +80,7 @@ Definition mem_nat (x : nat) (l : list nat) : bool := existsb (Nat.eqb x) l.
 Definition phase_eqb (a b : ophase) : bool :=
   match a, b with
   | PNew, PNew | PChecked, PChecked | PToggled, PToggled | PQueued, PQueued
-  | PRunning, PRunning | PWaiting, PWaiting | PPassed, PPassed | PFailed, PFailed | PLeaked, PLeaked => true
+  | PRunning, PRunning | PWaiting, PWaiting | PPassed, PPassed | PFailed, PFailed => true
   | _, _ => false
   end.
 
@@ -173,21 +172,18 @@ Definition step0 (lim : option nat) (s : gst) (l : label) : option gst :=
   | Retire o =>
       let x := ost s o in
       let r := kind x in
-      if phase_eqb (ph x) PPassed && Nat.ltb 0 (nrun s r)
+      if (phase_eqb (ph x) PPassed || phase_eqb (ph x) PFailed) && Nat.ltb 0 (nrun s r)
       then let s' := set_o s o o0 in
-           Some (mkG (blocker s') (nblock s') (rtog s') (otog s') (wst s') (ost s') (pend s')
-                     (upd (nrun s') r (pred (nrun s' r))) (upd (nseen s') r (pred (nseen s' r)))
-                     (listed s') (kinds s') (opened s'))
-      else if phase_eqb (ph x) PFailed && Nat.ltb 0 (nrun s r)
-      then let s' := set_o s o (mkO PLeaked (kind x) (mk x) (gated x) (early x)) in      (* the toggle stays in the set *)
            Some (mkG (blocker s') (nblock s') (rtog s') (otog s') (wst s') (ost s') (pend s')
                      (upd (nrun s') r (pred (nrun s' r))) (upd (nseen s') r (pred (nseen s' r)))
                      (listed s') (kinds s') (opened s'))
       else None
   | IndexRaised o =>
       let x := ost s o in
-      if phase_eqb (ph x) PRunning || phase_eqb (ph x) PFailed
-      then Some (set_o s o (mkO PFailed (kind x) (mk x) (gated x) (early x)))
+      if phase_eqb (ph x) PRunning || phase_eqb (ph x) PPassed || phase_eqb (ph x) PFailed
+      then let s' := set_o s o (mkO PFailed (kind x) (mk x) (gated x) (early x)) in
+           Some (mkG (blocker s') (nblock s') (rtog s') (remove_nat o (otog s')) (wst s') (ost s') (pend s') (nrun s') (nseen s')
+                     (listed s') (kinds s') (opened s'))
       else None
   end.
 
@@ -207,9 +203,11 @@ Fixpoint grun (lim : option nat) (s : gst) (tr : list label) : option gst :=
 Definition progress_label (l : label) : bool :=
   match l with DropBlocker | Listed _ | Start _ | Indexed _ => true | _ => false end.
 
-(* "every indexed kind made so far has been listed, every object first seen before that has been indexed" *)
+(* "every indexed kind made so far has been listed, every object first seen before that has been through index_resource":
+   indexed (PWaiting / PPassed), or its indexing raised (PFailed: the property's "indexed once" cannot hold for an object
+   whose filter callback raises; it is not indexed and no longer holds the others back) *)
 Definition pending_phase (p : ophase) : bool :=
-  match p with PChecked | PToggled | PQueued | PRunning | PFailed | PLeaked => true | _ => false end.
+  match p with PChecked | PToggled | PQueued | PRunning => true | _ => false end.
 Definition Ready (s : gst) : Prop :=
   blocker s = false /\
   (forall r, won (wst s r) = true -> windexed (wst s r) = true -> listed s r = true) /\
@@ -233,8 +231,6 @@ Definition measure (s : gst) : nat :=
   (if blocker s then 1 else 0) + List.length (rtog s) + List.length (otog s) + sum_pend s.
 Definition quiescent (s : gst) : Prop :=
   forall o, ph (ost s o) <> PChecked /\ ph (ost s o) <> PToggled.     (* no watcher is in the middle of a first event *)
-Definition unfailed (s : gst) : Prop :=
-  forall o, ph (ost s o) <> PFailed /\ ph (ost s o) <> PLeaked.      (* no index_resource call has raised *)
 Definition limit_ok (lim : option nat) (s : gst) : Prop :=
   match lim with None => True | Some n => forall r, nseen s r <= n end.
 
